@@ -18,10 +18,10 @@ const (
 	BehOK Beh = iota
 	BehErr
 	BehGoexit
-	BehCancelOK  // body calls cancel() and returns nil
-	BehCancelErr // body calls cancel() and returns its error
-	BehCancelGoexit   // body calls cancel() and then kills its goroutine
-	BehWaitDeadline   // body blocks until the (deadline) context is done, then returns nil
+	BehCancelOK     // body calls cancel() and returns nil
+	BehCancelErr    // body calls cancel() and returns its error
+	BehCancelGoexit // body calls cancel() and then kills its goroutine
+	BehWaitDeadline // body blocks until the (deadline) context is done, then returns nil
 )
 
 func (b Beh) String() string {
